@@ -70,9 +70,10 @@ def parse_args(message, fn):
         return None
     src = "f(%s)" % rest[:end]
     try:
-        call = ast.parse(src, mode="eval").body
-        pos = [ast.literal_eval(a) for a in call.args]
-        kw = {k.arg: ast.literal_eval(k.value) for k in call.keywords}
+        # CrossHair prints aliased values with walrus bindings (v1:=b'', v1, ...): evaluate the call
+        # expression with a collecting function in an empty namespace.
+        pos, kw = eval(src, {"__builtins__": {}, "f": lambda *a, **k: (list(a), k),
+                             "float": float, "set": set, "frozenset": frozenset, "bytearray": bytearray})
         sig = inspect.signature(fn)
         ba = sig.bind(*pos, **kw)
         ba.apply_defaults()
